@@ -1,6 +1,6 @@
 (* Props/C02.v — MT round trip is stable (text-block level).  Property theorems only. *)
 
-From SwiftMT Require Import Base.Bytes Engine.Layout Engine.Tokens Engine.Facts Engine.Replay Engine.Instance.
+From SwiftMT Require Import Base.Bytes Engine.Layout Engine.Tokens Engine.Facts Engine.Replay Engine.Instance Engine.Extract Engine.Factor Engine.FactorInstance.
 
 (* For each of the 30 regenerated layouts, every field-parser behaviour and every field printer
    whose output is (a) accepted again by every parser that accepted the original content and
@@ -32,5 +32,19 @@ Proof.
   exact (replay_accept fparse L fuel toks1 toks2 its1 (proj1 W) Hle Hrun).
 Qed.
 
+(* the same for the byte cursor: the text printed canonically from the parse is accepted again and printing
+   the second parse gives the same bytes, for printers that moreover print clean contents *)
+Theorem C02_block_roundtrip_bytes : forall T L, In (T, L) all_layouts ->
+  forall crlf (fparse : bytes -> option bytes -> bytes -> bool) (fprint : bytes -> option bytes -> bytes -> bytes),
+  (forall ty l c ty' l', fparse ty l c = true -> fparse ty' l' c = true -> fparse ty' l' (fprint ty l c) = true) ->
+  (forall ty l c, fparse ty l c = true -> fprint ty l (fprint ty l c) = fprint ty l c) ->
+  (forall ty l c, content_ok (fprint ty l c) = true) ->
+  forall fuel w toks its, aws w = true -> forallb tok_ok toks = true ->
+  brun fparse fuel L (w ++ render crlf toks) = Accept its ->
+  exists its', brun fparse fuel L (render crlf (serial fprint its)) = Accept its'
+               /\ render crlf (serial fprint its') = render crlf (serial fprint its).
+Proof. exact msg_roundtrip_bytes. Qed.
+
 Print Assumptions C02_block_roundtrip.
 Print Assumptions C02_replay.
+Print Assumptions C02_block_roundtrip_bytes.
